@@ -566,6 +566,62 @@ func oracleC04(r *OpRun) {
 	}
 }
 
+// ---------------------------------------------------------------- C07 (operator level)
+
+// oracleC07op: the merge is durable. Once following tasks were merged into the head task (the
+// execution shows several contexts) and removed from the queue, the head task carries all of
+// them: when that execution fails and the task is run again, the hook's context file starts with
+// the same contexts in the same order (later arrivals may be merged in behind them).
+func oracleC07op(r *OpRun) {
+	byQ := map[string][]*Exec{}
+	for _, x := range r.o.Execs {
+		if len(x.Ctxs) == 0 || isWebhookExec(x) {
+			continue
+		}
+		q := r.queueOf(x)
+		if q == "" || q == "?" {
+			continue
+		}
+		byQ[q] = append(byQ[q], x)
+	}
+	for q, xs := range byQ {
+		sort.Slice(xs, func(i, j int) bool { return xs[i].StartSeq < xs[j].StartSeq })
+		for i, x := range xs {
+			if !x.Fail || x.EndSeq == 0 || i+1 >= len(xs) {
+				continue
+			}
+			ids := identities(x)
+			if len(ids) < 2 || len(ids) != len(x.Ctxs) {
+				continue // nothing merged, or Group contexts (compaction) involved
+			}
+			retried := true
+			for _, c := range x.Ctxs {
+				a, k := r.ctxAllowFailure(x.Hook, c)
+				if !k || a {
+					retried = false
+				}
+			}
+			if !retried || r.headMayAllowFailure(x) {
+				continue
+			}
+			simrt.Count("probe:merged-execution-failed-and-retried")
+			next := xs[i+1]
+			nids := identities(next)
+			ok := next.Hook == x.Hook && len(nids) >= len(ids)
+			if ok {
+				for k := range ids {
+					if ids[k] != nids[k] {
+						ok = false
+					}
+				}
+			}
+			if !ok {
+				r.e.Viol("C07", "M5", "merged-contexts-lost-on-retry", "queue %q: merged execution #%d of %s received {%s} and failed; the retry #%d of %s received {%s}", q, x.N, x.Hook, strings.Join(ids, "; "), next.N, next.Hook, strings.Join(nids, "; "))
+			}
+		}
+	}
+}
+
 // ---------------------------------------------------------------- C06
 
 func oracleC06(r *OpRun) {
@@ -940,6 +996,17 @@ func oracleC17(r *OpRun, calledAt, returnedAt time.Duration) {
 		}
 		if st := q.GetStatus(); st != "stop" {
 			r.e.Viol("C17", "H2", "worker-not-stopped", "queue %q has status %q after shutdown although no handler is running", qn, st)
+		}
+	}
+	// H5: a worker that was waiting (back-off, empty queue) when the stop was requested notices it in
+	// its wait loop. Picking a task is instantaneous, so a task picked at a later simulated instant than
+	// the stop request was picked by a worker that slept through the request.
+	for _, qn := range r.o.queueNames() {
+		for _, st := range r.obs.QStatus[qn] {
+			if st.Status == "run first task" && st.Seq > s0 && st.At > r.obs.StopAt {
+				r.e.Viol("C17", "H5", "task-picked-after-waiting-through-stop", "queue %q picked a task at %v, the stop was requested at %v: the worker was waiting and did not notice the request", qn, st.At, r.obs.StopAt)
+				break
+			}
 		}
 	}
 	simrt.Count("probe:shutdown-checked")
